@@ -148,6 +148,9 @@ func run(c *props.Ctx) {
 	k.persist3()
 	k.persist4()
 	k.persist5()
+	k.persist6()
+	k.persist7()
+	k.save1()
 
 	if len(c.P.Controls) > 0 {
 		k.finishControls()
@@ -162,6 +165,9 @@ func run(c *props.Ctx) {
 	c.R.Floor("PERSIST-3", 3)
 	c.R.Floor("PERSIST-4", 2)
 	c.R.Floor("PERSIST-5", 20)
+	c.R.Floor("PERSIST-6", 1)
+	c.R.Floor("PERSIST-7", 5)
+	c.R.Floor("SAVE-1", 1)
 }
 
 var _ = ob.Holds
